@@ -385,7 +385,7 @@ func FieldOptions(t *rapid.T, f *ir.File, c *ir.Config, o KOpts) {
 			c.PlanModifiers[key(oc, "pmkey")] = l
 		}
 	}
-	// custom types via configuration (full path only; singular or repeated, not oneof/map/embedded)
+	// custom types via configuration (full path only; singular, repeated or a map of scalars; not oneof/embedded)
 	if !o.NoCustom {
 		c.CustomTypes = map[string]string{}
 		c.Suffixes = map[string]string{}
@@ -396,7 +396,7 @@ func FieldOptions(t *rapid.T, f *ir.File, c *ir.Config, o KOpts) {
 		}
 		for i, oc := range occ {
 			fl := oc.Field
-			if oc.Embed || isExcluded(oc) || oc.FullKey == "" || fl.Oneof != "" || fl.Card == ir.Map || fl.CustomType != "" || fl.Kind == ir.KMessage || fl.Kind == ir.KTimestamp || fl.Kind == ir.KDuration {
+			if oc.Embed || isExcluded(oc) || oc.FullKey == "" || fl.Oneof != "" || fl.CustomType != "" || fl.Kind == ir.KMessage || fl.Kind == ir.KTimestamp || fl.Kind == ir.KDuration {
 				continue
 			}
 			// Temporal kinds are left out: the harness's hooks render field values as JSON, and
